@@ -1,7 +1,159 @@
-(* C07 — Routing: depth-first, first match unless continue, with option inheritance. *)
+(* C07 — Routing: depth-first, first match unless continue, with option inheritance.
+   Only statements here; every proof is `exact <lemma from Proofs/RouteProofs.v>`.
+   All theorems hold for every tree, every label set and every regexp oracle [re].
+   A route (in Go a pointer to Route) is its position: the list of child indices from the root. *)
+From Coq Require Import Sorting.Sorted.
 From AM Require Import Base.Prelude Model.Matchers Model.Route Proofs.RouteProofs.
 
-Theorem c07_match_nonempty re ls r : matches re ls r = true -> match_route re ls r <> [].
-Proof. exact (match_route_nonempty re ls r). Qed.
+(* ---- the routes chosen are those of the declarative rule ---- *)
+(* Routes (Proofs/RouteProofs.v) is the rule of the property, written as an inductive relation independent of the
+   executable match_route: a node whose matchers fail yields nothing; a node whose matchers hold walks its children
+   in order, passing those that yield nothing, stopping after the first that yields something unless that child
+   has continue; it is itself the result only if no child yielded anything. *)
+Theorem c07_match_is_the_rule re ls r ps : match_route re ls r = ps <-> Routes re ls r ps.
+Proof. exact (match_route_spec re ls r ps). Qed.
 
-Print Assumptions c07_match_nonempty.
+Theorem c07_rule_deterministic re ls r ps1 ps2 : Routes re ls r ps1 -> Routes re ls r ps2 -> ps1 = ps2.
+Proof. exact (Routes_deterministic re ls r ps1 ps2). Qed.
+
+Theorem c07_rule_total re ls r : exists ps, Routes re ls r ps.
+Proof. exact (Routes_total re ls r). Qed.
+
+(* ---- closed form: which positions are chosen, and in which order ---- *)
+(* a position is chosen iff every node on the way matches, every earlier sibling passed on the way does not match
+   or has continue, and no child of the position matches *)
+Theorem c07_chosen_iff re ls r p : In p (match_route re ls r) <-> selected re ls r p = true.
+Proof. exact (match_route_in re ls r p). Qed.
+
+(* the result is exactly the chosen positions in depth-first pre-order (Route.Walk order), each once *)
+Theorem c07_depth_first_order re ls r : match_route re ls r = List.filter (selected re ls r) (pre_order r).
+Proof. exact (match_route_closed_form re ls r). Qed.
+
+Theorem c07_walk_lists_each_position_once r :
+  List.NoDup (pre_order r) /\ forall p, In p (pre_order r) <-> is_Some (node_at r p).
+Proof. exact (conj (pre_order_NoDup r) (pre_order_in r)). Qed.
+
+(* ---- every chosen node's matchers hold, and so do those of all its ancestors ---- *)
+Theorem c07_chosen_and_ancestors_match re ls r q k :
+  In (q ++ k) (match_route re ls r) -> exists n, node_at r q = Some n /\ matches re ls n = true.
+Proof. intros H. apply match_route_in in H. exact (selected_ancestors re ls q r k H). Qed.
+
+(* a node is itself the result only if none of its children matches *)
+Theorem c07_chosen_has_no_matching_child re ls r p n :
+  In p (match_route re ls r) -> node_at r p = Some n ->
+  forallb (fun c => negb (matches re ls c)) (r_children n) = true.
+Proof. intros H. apply match_route_in in H. exact (selected_leaf re ls p r n H). Qed.
+
+(* effect of continue, at any depth: if a route below child i of node n is chosen, every earlier child of n whose
+   matchers hold has continue set (a matching child without continue ends the walk over its siblings) *)
+Theorem c07_first_match_stops_unless_continue re ls r q i j k n c :
+  In (q ++ i :: k) (match_route re ls r) -> node_at r q = Some n -> (j < i)%nat ->
+  nth_error (r_children n) j = Some c -> matches re ls c = true -> r_cont c = true.
+Proof. intros H. apply match_route_in in H. exact (selected_continue re ls q r i j k n c H). Qed.
+
+(* ---- every alert is routed to at least one receiver ---- *)
+Theorem c07_root_without_matchers_always_matches re ls r : r_ms r = [] -> match_route re ls r <> [].
+Proof. exact (root_no_matchers_nonempty re ls r). Qed.
+
+(* for every configuration config.Load accepts: at least one route is chosen, and every chosen route has a
+   non-empty receiver that is one of the defined receivers *)
+Theorem c07_every_alert_has_a_receiver recv tis rr cr re ls :
+  load_route recv tis rr = Ok cr ->
+  match_route re ls (new_root cr) <> [] /\
+  forall p, In p (match_route re ls (new_root cr)) ->
+    exists n, node_at (new_root cr) p = Some n /\
+              ro_receiver (r_opts n) <> "" /\ smem (ro_receiver (r_opts n)) recv = true.
+Proof. exact (loaded_config_routes_everything recv tis rr cr re ls). Qed.
+
+(* ---- option inheritance ---- *)
+(* for the node at any position, with [up] = the configurations from the node itself up to the root:
+   receiver, group_by (list and wildcard flag, and the effective grouping), group_wait, group_interval,
+   repeat_interval are those of the nearest ancestor-or-self that sets them, else DefaultRouteOpts';
+   every route label is that of the nearest ancestor-or-self that has it (right-biased union along the path);
+   mute/active time intervals are the node's own (not inherited). See Record inherited. *)
+Theorem c07_inheritance cr p n :
+  node_at (new_root cr) p = Some n -> exists up, config_chain cr p = Some up /\ inherited (r_opts n) up.
+Proof. exact (inherit_spec_ex cr p n). Qed.
+
+(* group_by as written in the file: key absent = inherit, [] = group by nothing, ['...'] = all labels, a list *)
+Theorem c07_group_by_as_written c c' :
+  unmarshal_cfg c = Ok c' -> cc_raw c' = c /\ set_grouping c' = yaml_grouping c.
+Proof. exact (unmarshal_cfg_grouping c c'). Qed.
+
+(* a route's matchers are the conjunction of match, match_re and matchers, whatever order Go's map iteration and
+   sort.Sort put them in *)
+Theorem c07_matchers_are_the_conjunction re ls c :
+  ms_matches re (build_matchers c) ls =
+  forallb (fun '(n, v) => String.eqb (lget ls n) v) (rc_match c)
+  && forallb (fun '(n, v) => re (anchored v) (lget ls n)) (rc_match_re c)
+  && ms_matches re (rc_matchers c) ls.
+Proof. exact (build_matchers_semantics re ls c). Qed.
+
+(* the matcher list of a route (which Key() and ID() print) does not depend on Go's map iteration order over
+   match / match_re, nor on the (unstable) sorting algorithm: any Less-sorted arrangement of the same matchers is
+   the model's list *)
+Theorem c07_matcher_list_is_canonical c c' :
+  Permutation (rc_match c) (rc_match c') -> Permutation (rc_match_re c) (rc_match_re c') ->
+  Permutation (rc_matchers c) (rc_matchers c') -> build_matchers c = build_matchers c'.
+Proof. exact (build_matchers_order_irrelevant c c'). Qed.
+
+Theorem c07_any_correct_sort_agrees l s : Permutation s l -> StronglySorted m_le s -> s = m_sort l.
+Proof. exact (sorted_is_m_sort l s). Qed.
+
+(* Route.Idx (the slot of a route in the dispatcher's per-route group table) is a post-order numbering: no two
+   routes of a tree share it and it stays below the number of routes *)
+Theorem c07_route_idx_unique r p p' k : route_idx r p = Some k -> route_idx r p' = Some k -> p = p'.
+Proof. exact (route_idx_unique r p p' k). Qed.
+
+Theorem c07_route_idx_in_range r p k : route_idx r p = Some k -> (k < size r)%nat.
+Proof. exact (route_idx_range r p k). Qed.
+
+(* ---- non-vacuity ---- *)
+Definition ex_re : string -> string -> bool :=
+  re_of_table [("x|y", "x", true); ("x|y", "y", true); ("x|y", "", false); (".+", "", false); (".+", "x", true)].
+Definition ex_cfg (recv : string) (ms : list matcher) (cont : bool) : rcfg :=
+  mkRC recv None [] [] ms [] [] cont None None None [].
+(* root r0 (group_by [a]); child 0: a="x", continue, group_by [], with a grandchild that never matches;
+   child 1: a=~"x|y", receiver r3, group_by ['...'], repeat 45s, with a catch-all grandchild; child 2: catch-all r4 *)
+Definition ex_tree : rroute :=
+  RNode (mkRC "r0" (Some ["a"]) [] [] [] [] [] false None None None [("team", "t0")])
+    [ RNode (mkRC "r1" (Some []) [] [] [mkM MEq "a" "x"] [] [] true None None None [])
+        [ RNode (ex_cfg "r2" [mkM MEq "b" "never"] false) [] ];
+      RNode (mkRC "r3" (Some ["..."]) [] [] [mkM MRe "a" "x|y"] [] [] false None None (Some 45000000000) [("team", "t1")])
+        [ RNode (ex_cfg "" [] false) [] ];
+      RNode (ex_cfg "r4" [mkM MNre "c" ".+"] false) [] ].
+
+Example c07_example_loads_and_routes :
+  match load_route ["r0"; "r1"; "r2"; "r3"; "r4"] [] ex_tree with
+  | Ok cr =>
+      let r := new_root cr in
+      (* continue child whose subtree matches nothing is chosen itself, then the walk goes on *)
+      match_route ex_re [("a", "x")] r = [[0]; [1; 0]]%nat /\
+      match_route ex_re [("a", "y")] r = [[1; 0]]%nat /\
+      match_route ex_re [] r = [[2]]%nat /\                       (* negative matcher on an absent label *)
+      match_route ex_re [("c", "x")] r = [[]] /\                  (* nothing below matches: the root *)
+      receivers_of ex_re [("a", "x")] r = [Some "r1"; Some "r3"] /\
+      option_map (fun n => (eff_grouping (r_opts n), ro_ri (r_opts n), alookup (ro_labels (r_opts n)) "team"))
+                 (node_at r [1; 0]%nat) = Some (GAll, 45000000000, Some "t1") /\
+      option_map (fun n => eff_grouping (r_opts n)) (node_at r [0; 0]%nat) = Some (GBy []) /\
+      option_map (fun n => eff_grouping (r_opts n)) (node_at r [2]%nat) = Some (GBy ["a"])
+  | _ => False
+  end.
+Proof. vm_compute. repeat split; reflexivity. Qed.
+
+Example c07_example_rule_witness : Routes ex_re [("a", "x")]
+  (match load_route ["r0"; "r1"; "r2"; "r3"; "r4"] [] ex_tree with Ok cr => new_root cr | _ => Node default_opts [] false [] end)
+  [[0]; [1; 0]]%nat.
+Proof. apply match_route_spec. vm_compute. reflexivity. Qed.
+
+Example c07_example_rejected :
+  load_route ["r0"] [] (RNode (ex_cfg "" [] false) []) = Err "root-no-receiver" /\
+  load_route ["r0"] [] (RNode (ex_cfg "r0" [] false) [RNode (ex_cfg "nosuch" [] false) []]) = Err "undefined-receiver" /\
+  load_route ["r0"] [] (RNode (mkRC "r0" (Some ["a"; "..."]) [] [] [] [] [] false None None None []) []) = Err "group-by-wildcard-mixed".
+Proof. vm_compute. repeat split; reflexivity. Qed.
+
+Print Assumptions c07_match_is_the_rule.
+Print Assumptions c07_depth_first_order.
+Print Assumptions c07_every_alert_has_a_receiver.
+Print Assumptions c07_inheritance.
+Print Assumptions c07_matcher_list_is_canonical.
